@@ -4,6 +4,7 @@ These are NOT part of any check (the checks are static); they document the faili
 import io, os, struct, sys, tempfile, zlib, threading, pathlib, shutil, subprocess
 
 import py7zr
+import py7zr.properties
 from py7zr import archiveinfo as ai
 from py7zr.properties import PROPERTY
 
@@ -441,8 +442,8 @@ def F21():
             self.pos = o if w == 0 else (self.pos + o if w == 1 else self.n + o); return self.pos
         def read(self, k=-1):
             k = self.n - self.pos if k is None or k < 0 else min(k, self.n - self.pos); self.pos += k; return bytes(k)
-    for nm, flt in [(n, f) for n, f in (("deflate", [{"id": py7zr.FILTER_DEFLATE}]), ("deflate64", [{"id": py7zr.FILTER_DEFLATE64}]), ("zstd", [{"id": py7zr.FILTER_ZSTD}]),
-                                        ("brotli", [{"id": py7zr.FILTER_BROTLI, "level": 1}]), ("lzma2", [{"id": py7zr.FILTER_LZMA2, "preset": 1}]))
+    for nm, flt in [(n, f) for n, f in (("deflate", [{"id": py7zr.FILTER_DEFLATE}]), ("deflate64", [{"id": py7zr.properties.FILTER_DEFLATE64}]), ("zstd", [{"id": py7zr.FILTER_ZSTD}]),
+                                        ("brotli", [{"id": py7zr.properties.FILTER_BROTLI, "level": 1}]), ("lzma2", [{"id": py7zr.FILTER_LZMA2, "preset": 1}]))
                     if n in os.environ.get("F21_CODECS", "deflate,lzma2").split(",")]:
         p = os.path.join(d, nm + ".7z")
         with py7zr.SevenZipFile(p, "w", filters=flt) as z:
@@ -571,6 +572,37 @@ def F14b():
             z.extractall(os.path.join(d, f"o{mp}"), callback=cb)
         got[mp] = sorted(e for e in cb.ev if e[0] in "se")
     return f"mp=True: start/end events {got[True]} vs threads {got[False]} (events put by worker processes are lost)" if got[True] != got[False] else None
+
+
+@case
+def F21b():
+    # small declared output, expanding stream: memory must stay proportional to input + DECLARED output (C05)
+    code = ("import sys,io,resource\nsys.path.insert(0, %r)\nimport py7zr\nfrom py7zr.io import NullIOFactory\n"
+            "z = py7zr.SevenZipFile(sys.argv[1])\n"
+            "z.files.files_list[0]['uncompressed'] = 64\nz.header.main_streams.unpackinfo.folders[0].unpacksizes = [64]\n"
+            "z.header.main_streams.substreamsinfo.unpacksizes = [64]\nz.files.files_list[0].pop('digest', None)\n"
+            "try:\n    z.extractall(factory=NullIOFactory()); st='ok'\nexcept BaseException as e:\n    st=type(e).__name__\n"
+            "print(st, resource.getrusage(resource.RUSAGE_SELF).ru_maxrss//1024)\n") % os.getcwd()
+    d = tmp(); out = {}
+    class Zeros(io.BufferedIOBase):
+        def __init__(self, n): self.n = n; self.pos = 0
+        def readable(self): return True
+        def seekable(self): return True
+        def tell(self): return self.pos
+        def seek(self, o, w=0):
+            self.pos = o if w == 0 else (self.pos + o if w == 1 else self.n + o); return self.pos
+        def read(self, k=-1):
+            k = self.n - self.pos if k is None or k < 0 else min(k, self.n - self.pos); self.pos += k; return bytes(k)
+    for nm, flt in (("deflate", [{"id": py7zr.FILTER_DEFLATE}]), ("zstd", [{"id": py7zr.FILTER_ZSTD}]), ("lzma2", [{"id": py7zr.FILTER_LZMA2, "preset": 1}])):
+        p = os.path.join(d, nm + ".7z")
+        with py7zr.SevenZipFile(p, "w", filters=flt) as z:
+            z.writef(Zeros(512 << 20), "zeros.bin")
+        sz = os.path.getsize(p)
+        r = subprocess.run([sys.executable, "-c", code, p], capture_output=True, text=True, timeout=600).stdout.strip()
+        out[nm] = (sz, r)
+    shutil.rmtree(d, ignore_errors=True)
+    bad = {k: v for k, v in out.items() if k != "lzma2" and int(v[1].split()[-1]) > 400}
+    return f"member DECLARING 64 bytes whose stream expands to 512 MiB (archive bytes, status, peak RSS MiB): {out}" if bad else None
 
 
 if __name__ == "__main__":
